@@ -335,6 +335,16 @@ def generate(repo):
     except StopIteration:
         facts['be_pop_before_flag'] = False
 
+    # the read of an unbounded queue keeps following the node chain while the node it switched to is empty
+    sk['be_read_unbounded_frontend_queue'] = method_skeleton(docs, p, '_read_unbounded_frontend_queue') or []
+    ru = [l.strip() for l in sk['be_read_unbounded_frontend_queue']]
+    try:
+        i_alloc = next(i for i, l in enumerate(ru) if l == 'IF read_result.allocation')
+        i_empty = next(i for i, l in enumerate(ru) if l.startswith('IF !read_result.read_pos') and i > i_alloc)
+        facts['be_unbounded_read_follows_chain'] = ru[i_empty + 1].startswith('RET return _read_unbounded_frontend_queue(')
+    except (StopIteration, IndexError):
+        facts['be_unbounded_read_follows_chain'] = False
+
     # an exited thread's context is removed only when its queue AND its transit event buffer are empty (both queue kinds)
     cl_txt = re.sub(r'\s+', ' ', ' '.join(sk['be_cleanup_invalidated_thread_contexts']))
     facts['be_ctx_removal_requires_empty_buffer'] = (
